@@ -37,10 +37,10 @@ TrTags(x)      == {"zero", "one", "val"}
 Ev        == ses.ev[l]
 More      == l <= Len(ses.ev)
 CellOf(c) == <<c.s, c.i, c.ord>>
-ToSet(q)  == {q[i] : i \in 1..Len(q)}
+SeqSet(q)  == {q[i] : i \in 1..Len(q)}
 GoalOf(e) == IF e.kind = "define" THEN DefineGoal
-             ELSE CellsGoal({CellOf(c) : c \in ToSet(e.cells)})
-IsIn(c)   == c[1] \in ToSet(ses.inputs)
+             ELSE CellsGoal({CellOf(c) : c \in SeqSet(e.cells)})
+IsIn(c)   == c[1] \in SeqSet(ses.inputs)
 Adv       == l' = l + 1 /\ UNCHANGED <<ses, verdict>>
 
 \* componentwise maximum of the requested orders (zero for the definition phase)
@@ -51,7 +51,7 @@ Causal(c) == IsIn(c) => \A k \in 1..Len(c[3]) : c[3][k] <= GoalOrd(k)
 \* C12: ... and at most once while no fault has happened
 InputOnce(c) == (IsIn(c) /\ faults = 0) => Evals(c) = 0
 
-ValsOK(e) == \A x \in ToSet(e.vals) :
+ValsOK(e) == \A x \in SeqSet(e.vals) :
                /\ x.v = x.want                  \* equals the undisturbed computation (C10, C11)
                /\ Cell(CellOf(x)) = x.tag       \* and is the finished value the model knows
 
@@ -112,7 +112,7 @@ Diagnose ==
     [] OTHER        -> "unknown_event"
 
 TInit == /\ EInit
-         /\ ses \in ToSet(Sessions)
+         /\ ses \in SeqSet(Sessions)
          /\ l = 1 /\ verdict = "running"
 
 TReject == /\ More /\ verdict = "running" /\ ~ENABLED TConsume
